@@ -1176,6 +1176,9 @@ impl<'a> Comp<'a> {
             (Ty::Int(k), Ty::Str) => {
                 self.emit(Ins::IntToStr { unsigned: !k.signed() });
             }
+            (Ty::Str, Ty::Slice(el)) if matches!(self.tt().under(*el), Ty::Int(k) if k.signed() && k.bits() == 32) => {
+                self.emit(Ins::StrToRunes);
+            }
             (Ty::Str, Ty::Slice(_)) | (Ty::Slice(_), Ty::Str) => {
                 self.emit(Ins::Pop);
                 self.unsupported("string <-> slice conversion");
